@@ -351,6 +351,13 @@ func (t *ModelTracker) Untrack(ctx context.Context, c cid.Cid) error {
 	t.mu.Unlock()
 	return nil
 }
+// SetStatus makes the tracker report st for c from now on.
+func (t *ModelTracker) SetStatus(c cid.Cid, st api.TrackerStatus) {
+	t.mu.Lock()
+	t.Statuses[c.String()] = st
+	t.mu.Unlock()
+}
+
 func (t *ModelTracker) pi(c cid.Cid) *api.PinInfo {
 	st, ok := t.Statuses[c.String()]
 	if !ok {
